@@ -113,9 +113,19 @@ func (v Val) build() (any, error) {
 	case "fhir.base64Binary":
 		return &dtpb.Base64Binary{Value: []byte(v.S)}, nil
 	case "fhir.date":
-		return protoDate(v.S)
+		d, err := protoDate(v.S)
+		if err == nil && v.U != "" { // stored with a non-UTC time zone, as the JSON unmarshaller does with a default zone
+			t, _, _ := parseTemporalDate(v.S)
+			d.ValueUs, d.Timezone = time.Date(t.Y, time.Month(t.M), t.D, 0, 0, 0, 0, zoneLoc(v.U)).UnixMicro(), v.U
+		}
+		return d, err
 	case "fhir.dateTime":
-		return protoDateTime(v.S)
+		d, err := protoDateTime(v.S)
+		if err == nil && v.U != "" && !strings.Contains(v.S, "T") {
+			t, _, _ := parseTemporalDate(v.S)
+			d.ValueUs, d.Timezone = time.Date(t.Y, time.Month(t.M), t.D, 0, 0, 0, 0, zoneLoc(v.U)).UnixMicro(), v.U
+		}
+		return d, err
 	case "fhir.instant":
 		return protoInstant(v.S)
 	case "fhir.time":
